@@ -20,6 +20,7 @@ import (
 // backend store.
 type TrieStore struct {
 	trie *Trie
+	root util.Uint256
 }
 
 // NewTrieStore returns a new ready to use MPT-backed storage.
@@ -31,6 +32,7 @@ func NewTrieStore(root util.Uint256, mode TrieMode, backed storage.Store) *TrieS
 	tr := NewTrie(NewHashNode(root), mode, cache)
 	return &TrieStore{
 		trie: tr,
+		root: root,
 	}
 }
 
@@ -39,11 +41,10 @@ func NewTrieStore(root util.Uint256, mode TrieMode, backed storage.Store) *TrieS
 // stored or was removed already). Get and Seek can't tell a missing node from a
 // missing key, they answer with "no items" in both cases.
 func (m *TrieStore) CheckRoot() error {
-	hn, ok := m.trie.root.(*HashNode)
-	if !ok || hn.hash.Equals(util.Uint256{}) { // Empty trie.
+	if m.root.Equals(util.Uint256{}) { // Empty trie.
 		return nil
 	}
-	_, err := m.trie.getFromStore(hn.hash)
+	_, err := m.trie.getFromStore(m.root)
 	return err
 }
 
@@ -87,8 +88,9 @@ func (m *TrieStore) Seek(rng storage.SeekRange, f func(k, v []byte) bool) {
 	}
 	// The traversal resolves and collapses nodes in place. It can run in a
 	// goroutine of its own (SeekAsync) while Get is called, so it works on
-	// its own copy of the trie (nodes are read from the same store).
-	tr := NewTrie(NewHashNode(m.trie.root.Hash()), m.trie.mode, m.trie.Store)
+	// its own copy of the trie (nodes are read from the same store), the
+	// root node of m.trie is rewritten by Get as well.
+	tr := NewTrie(NewHashNode(m.root), m.trie.mode, m.trie.Store)
 	_, start, path, err := tr.getWithPath(tr.root, prefixP, false)
 	if err != nil {
 		// Failed to determine the start node => no matching items.
